@@ -252,6 +252,11 @@ def make_jobs(ctx, vectors, scale=None):
     for i in range(n(12, 400)):
         irk = J.rnd(16) if i > 1 else (zero, ones)[i]
         J.add("rpaseq", "same resolver, same prand, other keys", f="rpaseq", irk=irk, rand=J.rnd(6), others=[J.rnd(16), J.rnd(16)])
+    # ---- the resolver built from a key store whose bonds do not all carry an IRK, in every position
+    for i in range(n(8, 200)):
+        a, b, c = J.rnd(16), J.rnd(16), J.rnd(16)
+        bonds = [[None, a, b], [a, None, b], [a, b, None], [None, None, a, b], [a, None, None, b, c], [None, a, None, b]][i % 6]
+        J.add("rpastore", "resolver from a key store with IRK-less bonds", f="rpastore", bonds=bonds, rand=J.rnd(6))
     # ---- diagnostic: the fallback's private point addition (not a verdict)
     for d1, d2 in ((1, 1), (2, 2), (5, N - 5), (3, 4), (N - 1, N - 1), (N - 1, 1)):
         J.add("diag", "padd", f="padd", a=[h32(d1), h32(d2), h32((d1 + d2) % N)])
@@ -297,7 +302,7 @@ def run_library(jobs):
 
 # ----------------------------------------------------------------------------- traces and verdicts
 KEEP = ("e", "b", "f", "args", "r", "valid")
-CHUNK = {"vectors": 1000, "e": 24, "cmac": 24, "smp": 24, "dh": 6, "dhpt": 24, "dhbad": 24, "rpa": 6, "dhseq": 6, "rpaseq": 6}
+CHUNK = {"vectors": 1000, "e": 24, "cmac": 24, "smp": 24, "dh": 6, "dhpt": 24, "dhbad": 24, "rpa": 6, "dhseq": 6, "rpaseq": 6, "rpastore": 6}
 PRIORITY = ["InvalidPoint", "Vectors", "Total", "RPA", "DHSymmetry", "Deterministic", "Agreement"]
 BLAMES_BACKEND = {"InvalidPoint", "Vectors", "Total", "RPA", "DHSymmetry", "Deterministic"}
 
